@@ -398,16 +398,18 @@ func (r *Router) AddChunkFilter(filter ChunkFilter) {
 func (r *Router) assignIPAddress() (net.IP, error) {
 	// See: https://stackoverflow.com/questions/14915188/ip-address-ending-with-zero
 
-	if r.lastID == 0xfe {
-		return nil, errAddressSpaceExhausted
-	}
-
 	ip := make(net.IP, 4)
 	copy(ip, r.ipv4Net.IP[:3])
-	r.lastID++
-	ip[3] = r.lastID
+	for r.lastID != 0xfe {
+		r.lastID++
+		ip[3] = r.lastID
+		// skip addresses that a NIC already holds (static assignments)
+		if _, inUse := r.nics[ip.String()]; !inUse {
+			return ip, nil
+		}
+	}
 
-	return ip, nil
+	return nil, errAddressSpaceExhausted
 }
 
 func (r *Router) push(c Chunk) {
